@@ -36,7 +36,7 @@ fn strata(t: Tier) -> Vec<Stratum> {
     vec![
         st("well-formed", scale(t, 150_000, 1_500_000, 6)),
         st("corrupted-tables", scale(t, 300_000, 3_000_000, 6)),
-        ex("hash-fn-short-strings", 1),
+        ex("hash-fn-short-strings", scale(t, 1, 1, 0)),
         st("hash-fn-random", scale(t, 1_000_000, 10_000_000, 50)),
     ]
 }
@@ -200,7 +200,7 @@ fn well_formed(ctx: &mut Ctx) {
     let enc = Enc::ALL[ctx.rng.usize_below(4)];
     ctx.count(&format!("enc:{}", enc.name()));
     let any = ctx.rng.bool();
-    let names = gen_names(&mut ctx.rng, 300, false);
+    let names = gen_names(&mut ctx.rng, if ctx.tier == Tier::Miri { 24 } else { 300 }, false);
     let nsyms = names.len();
     let nbucket = match ctx.rng.below(4) {
         0 => 1,
